@@ -863,6 +863,53 @@ func c07(e *env) {
 		x.doRaw(rawDesc{Tier: "raw", Proto: "bin", Wire: g.nearBin(), Note: "header field edit"})
 	}
 
+	// tier B2: proper prefixes of one well-formed request followed by end of stream. The
+	// property's "decodes to that same request" has a converse the parser must respect: a
+	// request whose bytes have not all arrived is not a request, whatever the field boundary
+	// the stream ends at. Oracle on the Go side (no request may be returned), model compared
+	// through the ordinary raw case.
+	nprefix := 120
+	if e.tier == "thorough" {
+		nprefix = 1500
+	}
+	for i := 0; i < nprefix; i++ {
+		proto := "bin"
+		if i%3 == 2 {
+			proto = "text"
+		}
+		var q wire.Req
+		for {
+			if proto == "bin" {
+				q = g.binReq(false)
+			} else {
+				q = g.textReq(false)
+			}
+			if len(q.Items) == 0 {
+				break
+			}
+		}
+		enc := encode(proto, q)
+		cutset := map[int]bool{len(enc) - 1: true, len(enc) - len(q.Data): true, len(enc) - len(q.Data) - len(q.Key): true,
+			len(enc) - len(q.Data) - 2: true, 24: true, 1 + r.Intn(len(enc)): true, 1 + r.Intn(len(enc)): true}
+		for c := range cutset {
+			if c <= 0 || c >= len(enc) {
+				continue
+			}
+			d := rawDesc{Tier: "raw", Proto: proto, Wire: wire.Hex(append([]byte{}, enc[:c]...)), Note: fmt.Sprintf("proper prefix (%d of %d bytes) of %s", c, len(enc), q.Kind)}
+			// the text parser discards the "\r\n" after a data block without looking at it, so a
+			// text store command whose data arrived in full is decoded, field for field as sent,
+			// even when that terminator is cut: the property does not forbid that
+			onlyTerminatorMissing := proto == "text" && c >= len(enc)-2 && len(enc) >= 2 && enc[len(enc)-2] == '\r' &&
+				(q.Kind == wire.Set || q.Kind == wire.Add || q.Kind == wire.Replace || q.Kind == wire.Append || q.Kind == wire.Prepend)
+			if got := parseSeq(proto, &segReader{data: d.Wire}, 1); got.Status != 1 && !(onlyTerminatorMissing && wire.Equal(got.Seen[0], q)) {
+				w.Fail(rig.GoFailure{Kind: "counterexample", What: "the parser returned a request although the stream ended before the request's last byte",
+					Input: d, Detail: fmt.Sprintf("sent the first %d of %d bytes of %+v; decoded %+v", c, len(enc), q, got.Seen)})
+			}
+			w.Count("prefix-cases")
+			x.doRaw(d)
+		}
+	}
+
 	w.Res.Stats["seconds_near_valid"] = time.Since(t0).Seconds()
 	t0 = time.Now()
 	// tier C: first byte, all 256 values through server.ListenAndServe
